@@ -20,7 +20,7 @@ Infix "@@" := String.append (at level 60, right associativity).
 (* ------------------------------------------------------------------ instructions *)
 Inductive version := V311 | V312.
 (* which LOAD_x / STORE_x: FAST, GLOBAL, DEREF, NAME, (LOAD_)FAST_CHECK *)
-Inductive nkind := KFast | KGlobal | KDeref | KName | KFastCheck.
+Inductive nkind := KFast | KGlobal | KDeref | KName | KFastCheck | KGlobalNull.   (* KGlobalNull: LOAD_GLOBAL that also pushes NULL *)
 Inductive nopk := NPushNull | NPrecall | NCache.
 
 Inductive insn :=
@@ -167,7 +167,7 @@ Definition describe (ins : list insn) : dres :=
   | IPopTop :: _ => DNone
   | IStoreName KFast s :: _ => DSome s
   | _ =>
-    match nt (2 * List.length ins + 2) ins [] with
+    match nt (3 * List.length ins + 3) ins [] with
     | Ok (s, _) => DSome s
     | Err => DNone
     | Fuel => DFuel
@@ -199,8 +199,13 @@ Inductive target :=
   | TTuple (ts : list target)                    (* (a, b) or [a, b] *)
   | TStar (before : list target) (star : target) (after : list target).
 
-Definition is_global (e : expr) : bool :=
-  match e with EName KGlobal _ => true | _ => false end.
+(* the NULL a call needs below its callee: PUSH_NULL, which the optimizer folds into an immediately
+   following LOAD_GLOBAL (that does not carry a NULL yet) *)
+Definition push_null (c : list insn) : list insn :=
+  match c with
+  | ILoad KGlobal s :: r => ILoad KGlobalNull s :: r
+  | _ => INop NPushNull :: c
+  end.
 
 Definition call_suffix (v : version) (n : nat) : list insn :=
   match v with V311 => [INop NPrecall; ICall n] | V312 => [ICall n] end.
@@ -215,8 +220,7 @@ Fixpoint compile_expr (v : version) (e : expr) : list insn :=
       compile_expr v e ++ compile_expr v lo ++ compile_expr v hi ++
       match v with V312 => [IBinarySlice false] | V311 => [IOther 6; IBinarySubscr] end
   | ECall f args =>
-      (* LOAD_GLOBAL carries the NULL itself; any other callee is preceded by PUSH_NULL *)
-      (if is_global f then [] else [INop NPushNull]) ++ compile_expr v f ++
+      push_null (compile_expr v f) ++
       flat_map (compile_expr v) args ++ call_suffix v (List.length args)
   | EMCall o m args =>
       compile_expr v o ++ [ILoadAttr true m] ++
@@ -224,7 +228,7 @@ Fixpoint compile_expr (v : version) (e : expr) : list insn :=
   | EOp tag subs => flat_map (compile_expr v) subs ++ [IOther tag]
   | EWalrus k s e => compile_expr v e ++ [IOther 2; IStoreName k s]
   | ECallX tag f args =>
-      (if is_global f then [] else [INop NPushNull]) ++ compile_expr v f ++
+      push_null (compile_expr v f) ++
       flat_map (compile_expr v) args ++
       (if Nat.eqb tag 3 then IOther 3 :: call_suffix v (List.length args) else [IOther tag])
   end)%list.
@@ -322,7 +326,8 @@ Definition expected (v : version) (t : option target) : dres :=
 (* ------------------------------------------------------------------ correspondence cases *)
 Definition nkind_eqb (a b : nkind) : bool :=
   match a, b with
-  | KFast, KFast | KGlobal, KGlobal | KDeref, KDeref | KName, KName | KFastCheck, KFastCheck => true
+  | KFast, KFast | KGlobal, KGlobal | KDeref, KDeref | KName, KName | KFastCheck, KFastCheck
+  | KGlobalNull, KGlobalNull => true
   | _, _ => false
   end.
 Definition nopk_eqb (a b : nopk) : bool :=
@@ -366,7 +371,9 @@ Definition dres_eqb (a b : dres) : bool :=
    instruction on (abstracted from dis), [obs] = what the real describe_assignment_target
    returned at that index, [obs_awb] = the varname analyze_with_blocks recorded for the item
    (found through its own skip logic).
-   ok iff (a) the compiler model predicts the real store sequence, (b) the decompiler model
+   ok iff (a) the compiler model predicts the real store sequence (the window holds at least
+   everything the implementation read, and >= 48 instructions; a longer model sequence is compared
+   on the window), (b) the decompiler model
    predicts the real result, (c) the result is what the property expects, (d) analyze_with_blocks
    saw the same result. *)
 Definition tcase := (version * option target * list insn * dres * dres)%type.
@@ -374,7 +381,7 @@ Definition tcase := (version * option target * list insn * dres * dres)%type.
 Definition tcase_flags (c : tcase) : list bool :=
   let '(v, t, code, obs, obs_awb) := c in
   let m := compile_item v t in
-  [ list_eqb insn_eqb (firstn (List.length m) code) m;
+  [ list_eqb insn_eqb (firstn (List.length m) code) (firstn (List.length code) m);
     dres_eqb (describe code) obs;
     dres_eqb obs (expected v t);
     dres_eqb obs_awb obs ].
